@@ -3,6 +3,7 @@ From Coq Require Import ZArith List.
 From Coq Require Import ExtrOcamlBasic.
 From Webp Require Vp8l.Vp8lPixel Vp8l.Vp8lSpec Vp8l.Vp8lEmit Vp8l.Vp8lInPlace Vp8l.Vp8lKernels Vp8l.Vp8lWf Vp8l.Vp8lTrace Vp8l.Vp8lLut Vp8l.Vp8lBitReader.
 From Webp Require Vp8l.Vp8lPacked.
+From Webp Require Vp8l.Vp8lBitReaderFill.
 
 Separate Extraction
   BinInt.Z.add BinInt.Z.mul BinInt.Z.sub BinInt.Z.opp BinInt.Z.div BinInt.Z.modulo
@@ -11,5 +12,5 @@ Separate Extraction
   Vp8lSpec.decode_full Vp8lSpec.decode_header Vp8lSpec.decode Vp8lSpec.apply_inverse Vp8lSpec.copy_step Vp8lSpec.copy_pixels
   Vp8lSpec.plane_to_dist Vp8lSpec.undelta Vp8lPrefix.tree_of_lens Vp8lPrefix.read_symbol
   Vp8lEmit.emit Vp8lEmit.sem Vp8lInPlace.apply_inverse_pingpong
-  Vp8lBitReader.br_new Vp8lBitReader.br_run Vp8lLut.lut_build Vp8lLut.lut_read Vp8lPacked.packed_build Vp8lPacked.packed_read Vp8lPacked.seq_read Vp8lWf.wf_planb Vp8lTrace.trace_decode Vp8lTrace.prefix_then_zeros
+  Vp8lBitReader.br_new Vp8lBitReader.br_run Vp8lBitReader.le_value Vp8lBitReaderFill.spec_script Vp8lBitReaderFill.wf_scriptb Vp8lLut.lut_build Vp8lLut.lut_read Vp8lPacked.packed_build Vp8lPacked.packed_read Vp8lPacked.seq_read Vp8lWf.wf_planb Vp8lTrace.trace_decode Vp8lTrace.prefix_then_zeros
   Vp8lKernels.copy_block Vp8lKernels.copy_fwd Vp8lKernels.expand_color_map.
